@@ -4,38 +4,6 @@
 
 #define CHK(fname) do { if (strcmp(sizefn, fname)) return 0; } while (0)
 
-/* a ring created with exact keep; ops run with exact r->deep */
-static qr_o* ring_create(int kind, size_t no, buf_t* keepb, const octet* mod)
-{
-	/* kind: 0 plain 1 crand 2 barr 3 mont 4 auto(zmCreate) 5 gfp */
-	size_t keep, deep;
-	buf_t st;
-	qr_o* r;
-	switch (kind)
-	{
-	case 0: keep = zmCreatePlain_keep(no); deep = zmCreatePlain_deep(no); break;
-	case 1: keep = zmCreateCrand_keep(no); deep = zmCreateCrand_deep(no); break;
-	case 2: keep = zmCreateBarr_keep(no); deep = zmCreateBarr_deep(no); break;
-	case 3: keep = zmCreateMont_keep(no); deep = zmCreateMont_deep(no); break;
-	case 4: keep = zmCreate_keep(no); deep = zmCreate_deep(no); break;
-	default: keep = gfpCreate_keep(no); deep = gfpCreate_deep(no); break;
-	}
-	*keepb = balloc(keep);
-	r = (qr_o*)keepb->p;
-	st = stk(deep);
-	switch (kind)
-	{
-	case 0: zmCreatePlain(r, mod, no, st.p); break;
-	case 1: zmCreateCrand(r, mod, no, st.p); break;
-	case 2: zmCreateBarr(r, mod, no, st.p); break;
-	case 3: zmCreateMont(r, mod, no, st.p); break;
-	case 4: zmCreate(r, mod, no, st.p); break;
-	default: if (!gfpCreate(r, mod, no, st.p)) { bfree(st); return 0; } break;
-	}
-	bfree(st);
-	return r;
-}
-
 static void ring_ops(qr_o* r, size_t rounds)
 {
 	/* every op with a stack of exactly r->deep; operands exact */
@@ -64,7 +32,14 @@ static void ring_ops(qr_o* r, size_t rounds)
 	/* inv / div on the unity (always invertible) and on a power of it */
 	qrInv(c, r->unity, r, st.p);
 	qrDiv(c, a, r->unity, r, st.p);
-	qrPower(c, a, b, n, r, st.p) ;
+	{
+		buf_t s2 = stk(qrPower_deep(n, n, r->deep));
+		qrPower(c, a, b, n, r, s2.p);
+		bfree(s2);
+		s2 = stk(qrPower_deep(n, 1, r->deep));
+		qrPower(c, a, b, 1, r, s2.p);
+		bfree(s2);
+	}
 	free(oct);
 	wfree(a, n); wfree(b, n); wfree(c, n);
 	bfree(st);
@@ -383,18 +358,18 @@ static int c07_math(const char* fn, const char* sizefn, buf_t st, size_t size, i
 		octet* mod = (octet*)malloc(no ? no : 1);
 		qr_o* r;
 		size_t i, keep;
-		static const char* names[] = { "zmCreatePlain_deep", "zmCreateCrand_deep", "zmCreateBarr_deep", "zmCreateMont_deep", "zmCreate_deep", "gfpCreate_deep" };
-		if (kind < 0 || kind > 5 || no == 0) return 0;
+		static const char* names[] = { "zmCreatePlain_deep", "zmCreateCrand_deep", "zmCreateBarr_deep", "zmCreateMont_deep", "zmCreate_deep", "gfpCreate_deep", "zmMontCreate_deep" };
+		if (kind < 0 || kind > 6 || no == 0) return 0;
 		CHK(names[kind]);
 		for (i = 0; i < no; ++i) mod[i] = (octet)rnd();
 		if (mod[no - 1] == 0) mod[no - 1] = 1;
 		if (kind == 1) { if (no % O_PER_W || no < 2 * O_PER_W) { free(mod); return 0; } memset(mod + O_PER_W, 0xFF, no - O_PER_W); mod[0] |= 1; }
-		if (kind == 3 || kind == 5 || kind == 1) mod[0] |= 1;
+		if (kind == 3 || kind == 5 || kind == 1 || kind == 6) mod[0] |= 1;
 		if (kind == 5) { /* gfpCreate wants an odd modulus > 1; primality is not required for the size logic but ops assume a field: use a prime where cheap */
 			if (no == 32) { static const char p256[] = "43ffffffffffffffffffffffffffffffffffffffffffffffffffffffffffffff"; int k; memset(mod, 0xFF, 32); mod[0] = 0x43; (void)p256; (void)k; } }
 		if (no == 1 && mod[0] < 3) mod[0] = 3;
 		keep = kind == 0 ? zmCreatePlain_keep(no) : kind == 1 ? zmCreateCrand_keep(no) : kind == 2 ? zmCreateBarr_keep(no) :
-			kind == 3 ? zmCreateMont_keep(no) : kind == 4 ? zmCreate_keep(no) : gfpCreate_keep(no);
+			kind == 3 ? zmCreateMont_keep(no) : kind == 4 ? zmCreate_keep(no) : kind == 6 ? zmMontCreate_keep(no) : gfpCreate_keep(no);
 		kb = balloc(keep);
 		r = (qr_o*)kb.p;
 		switch (kind)
@@ -404,6 +379,7 @@ static int c07_math(const char* fn, const char* sizefn, buf_t st, size_t size, i
 		case 2: zmCreateBarr(r, mod, no, st.p); break;
 		case 3: zmCreateMont(r, mod, no, st.p); break;
 		case 4: zmCreate(r, mod, no, st.p); break;
+		case 6: zmMontCreate(r, mod, no, B_OF_W(W_OF_O(no)), st.p); break;
 		default: if (!gfpCreate(r, mod, no, st.p)) { bfree(kb); free(mod); return 1; } break;
 		}
 		if (r->hdr.keep > keep || r->deep > size) { fprintf(stderr, "Assertion c07: object keep/deep %zu/%zu exceed declared %zu/%zu\n", r->hdr.keep, r->deep, keep, size); abort(); }
@@ -547,7 +523,9 @@ static int c07_math(const char* fn, const char* sizefn, buf_t st, size_t size, i
 		if (prm->p[0] != n) { free(prm); return 0; }
 		fb = balloc(gf2Create_keep(prm->p[0]));
 		f = (qr_o*)fb.p;
-		if (!gf2Create(f, prm->p, st.p)) { fprintf(stderr, "Assertion c07: gf2Create failed\n"); abort(); }
+		{ size_t* p4 = (size_t*)malloc(4 * sizeof(size_t)); int ok; p4[0] = prm->p[0]; p4[1] = prm->p[1]; p4[2] = prm->p[2]; p4[3] = prm->p[3];
+		  ok = gf2Create(f, p4, st.p); free(p4); if (!ok) { fprintf(stderr, "Assertion c07: gf2Create failed\n"); abort(); } }
+		if (0) { fprintf(stderr, "Assertion c07: gf2Create failed\n"); abort(); }
 		nn = f->n;
 		eb = balloc(ec2CreateLD_keep(nn));
 		ec = (ec_o*)eb.p;
@@ -560,7 +538,7 @@ static int c07_math(const char* fn, const char* sizefn, buf_t st, size_t size, i
 		}
 		bfree(s2);
 		s2 = stk(ecCreateGroup_deep(f->deep));
-		if (!ecCreateGroup(ec, prm->P, prm->P + f->no, prm->n, O_OF_B(prm->p[0]), prm->c, s2.p)) { fprintf(stderr, "Assertion c07: ecCreateGroup(ec2) failed\n"); abort(); }
+		if (!ecCreateGroup(ec, prm->P, prm->P + f->no, prm->n, f->no, prm->c, s2.p)) { fprintf(stderr, "Assertion c07: ecCreateGroup(ec2) failed\n"); abort(); }
 		bfree(s2);
 		if (ec->hdr.keep > eb.n || ec->deep > ec2CreateLD_deep(nn, f->deep)) { fprintf(stderr, "Assertion c07: ec2 keep/deep exceed declared\n"); abort(); }
 		{
